@@ -182,8 +182,12 @@ func (op M2rri) Op_instruction_verilog_footer(arch *Arch, flavor string) string 
 		ramAddr = " (current_instruction[" + strconv.Itoa(rom_word-1) + ":" + strconv.Itoa(rom_word-opbits) + "]==M2RRI) ? addr_ram_m2rri: " + ramAddr
 	}
 
-	if arch.Modes[0] == "hy" || arch.Modes[0] == "vn" {
+	if arch.Modes[0] == "hy" {
 		ramAddr = " (exec_mode == 1'b1 && vn_state == FETCH) ? _pc : " + ramAddr
+	}
+	if arch.Modes[0] == "vn" {
+		// vn processors always execute from RAM: there is no exec_mode register
+		ramAddr = " (vn_state == FETCH) ? _pc : " + ramAddr
 	}
 
 	if arch.OnlyOne(op.Op_get_name(), []string{"r2mri", "r2m", "m2r", "m2rri"}) {
